@@ -3,6 +3,7 @@ package gen
 import (
 	"github.com/zclconf/go-cty/cty"
 	"golang.org/x/text/unicode/norm"
+	"strconv"
 
 	"verif/harness/core"
 	m "verif/harness/model"
@@ -21,9 +22,29 @@ type ValueOpts struct {
 	TwinKeys   bool // map keys may include the NFC/NFD twin and ""
 	NoTopNull  bool
 	NoTopUnk   bool
+	NoBig      bool // never escalate collection lengths beyond MaxLen (see collLen)
+	depth      int
 }
 
-func (o ValueOpts) inner() ValueOpts { o.NoTopNull, o.NoTopUnk = false, false; return o }
+func (o ValueOpts) inner() ValueOpts { o.NoTopNull, o.NoTopUnk = false, false; o.depth++; return o }
+
+// collLen draws a collection length: 0..MaxLen as a rule; now and then (top two levels only) a
+// length beyond every small-size special case of the library and of the codecs: 7..20 members
+// (msgpack fixarray/fixmap end at 15, sort.Sort switches algorithm at 12) and, for primitive
+// members, 250..261 (the 8-bit limit). A size-threshold fault cannot show on 0..3 members.
+func collLen(r *core.Rand, o ValueOpts, ety cty.Type) int {
+	n := r.Intn(o.MaxLen + 1)
+	if o.NoBig || o.depth > 1 {
+		return n
+	}
+	switch {
+	case r.Chance(1, 50):
+		return 7 + r.Intn(14)
+	case r.Chance(1, 700) && ety.IsPrimitiveType():
+		return 250 + r.Intn(12)
+	}
+	return n
+}
 
 // Known returns options for wholly known, non-null values.
 func Known() ValueOpts { return ValueOpts{MaxLen: 3} }
@@ -67,7 +88,7 @@ func Value(r *core.Rand, ty cty.Type, o ValueOpts) cty.Value {
 		}
 		return cty.StringVal(SmallString(r))
 	case ty.IsListType():
-		n := r.Intn(o.MaxLen + 1)
+		n := collLen(r, o, ty.ElementType())
 		if n == 0 {
 			return cty.ListValEmpty(ty.ElementType())
 		}
@@ -80,7 +101,7 @@ func Value(r *core.Rand, ty cty.Type, o ValueOpts) cty.Value {
 		}
 		return cty.ListVal(es)
 	case ty.IsSetType():
-		n := r.Intn(o.MaxLen + 1)
+		n := collLen(r, o, ty.ElementType())
 		var es []cty.Value
 		for i := 0; i < n; i++ {
 			e := Value(r, ty.ElementType(), in)
@@ -104,7 +125,7 @@ func Value(r *core.Rand, ty cty.Type, o ValueOpts) cty.Value {
 		}
 		return cty.SetVal(es)
 	case ty.IsMapType():
-		n := r.Intn(o.MaxLen + 1)
+		n := collLen(r, o, ty.ElementType())
 		if n == 0 {
 			return cty.MapValEmpty(ty.ElementType())
 		}
@@ -116,6 +137,9 @@ func Value(r *core.Rand, ty cty.Type, o ValueOpts) cty.Value {
 				k = norm.NFC.String(Key(r))
 			} else {
 				k = SimpleKey(r)
+			}
+			if i >= 5 {
+				k = "k" + strconv.Itoa(i*7%1000) // the key pools are small: a long map needs keys of its own
 			}
 			if _, ok := mm[k]; !ok {
 				order = append(order, k)
